@@ -429,6 +429,23 @@ def apply_model(sym, n, f, vals, mut_idx, st):
                 states = nxt
             return out + [(s0, (VAL, FALSE if last == "any" else NONE)) for s0 in states]
 
+    # ---- `[a, b].into_iter().fold(init, f)` is f(f(init, a), b) -----------------------------------------------------------------------
+    if p == "std::iter::Iterator::fold" and len(vals) == 3 and vals[2][0] in ("closure", "fnref"):
+        src = vals[0]
+        while src[0] == "call" and src[1].endswith(("IntoIterator::into_iter", "core::slice::iter", "core::array::iter")) and len(src[2]) == 1:
+            src = src[2][0]
+        if src[0] == "array" and len(src[1]) <= 8:
+            states = [(st, vals[1])]
+            for el in src[1]:
+                nxt = []
+                for s0, acc in states:
+                    for s1, (k1, v1) in sym.apply(vals[2], [acc, el], s0, n):
+                        if k1 != VAL:
+                            return None
+                        nxt.append((s1, v1))
+                states = nxt
+            return [(s0, (VAL, acc)) for s0, acc in states]
+
     # ---- `[a, b, c].into_iter().try_for_each(f)`: f(a)?; f(b)?; f(c)?; Ok(()) --------------------------------------------------
     if p == "std::iter::Iterator::try_for_each" and len(vals) == 2 and vals[1][0] in ("closure", "fnref"):
         src = vals[0]
